@@ -172,24 +172,35 @@ def pairLoop (prev : Option Layer) : List (Nat × Nat) → List Gate → List Na
         else pairLoop prev rest gates crq
 termination_by pairs => pairs.length
 
-/-- `EVQECircuitLayer.random_layer` (also returns the unused part of the oracle) -/
-def randomLayer (n : Nat) (prev : Option Layer) (o : Oracle) : Except Err (Layer × Oracle) := do
-  if n < 1 then throw .fewerThanOneQubit
+/-- the last remaining qubit: a rotation if possible, otherwise an identity -/
+def finalStep (prev : Option Layer) (gates : List Gate) (crq : List Nat) : List Gate :=
+  match crq with
+  | [q] =>
+    (match prevGate prev q with
+     | some (.rot _) => gates.set q (.id q)
+     | _ => gates.set q (.rot q))
+  | _ => gates
+
+/-- `previous_layer is not None and previous_layer.n_qubits != n_qubits` -/
+def qubitMismatch (prev : Option Layer) (n : Nat) : Bool :=
   match prev with
-  | some p => if p.nQubits ≠ n then throw .qubitMismatch
-  | none => pure ()
-  let init := (List.range n).map Gate.id
-  let (gates, crq, coins) ← markLoop prev (List.range n) o.coins init []
-  let (gates, crq, pairs) ← pairLoop prev o.pairs gates crq
-  let gates :=
-    match crq with
-    | [q] =>
-      (match prevGate prev q with
-       | some (.rot _) => gates.set q (.id q)
-       | _ => gates.set q (.rot q))
-    | _ => gates
-  let l ← mkLayer n gates
-  pure (l, { coins := coins, pairs := pairs })
+  | some p => decide (p.nQubits ≠ n)
+  | none => false
+
+/-- `EVQECircuitLayer.random_layer` (also returns the unused part of the oracle) -/
+def randomLayer (n : Nat) (prev : Option Layer) (o : Oracle) : Except Err (Layer × Oracle) :=
+  if n < 1 then .error .fewerThanOneQubit
+  else if qubitMismatch prev n then .error .qubitMismatch
+  else
+    match markLoop prev (List.range n) o.coins ((List.range n).map Gate.id) [] with
+    | .error e => .error e
+    | .ok (g1, crq1, coins) =>
+      match pairLoop prev o.pairs g1 crq1 with
+      | .error e => .error e
+      | .ok (g2, crq2, pairs) =>
+        match mkLayer n (finalStep prev g2 crq2) with
+        | .error e => .error e
+        | .ok l => .ok (l, { coins := coins, pairs := pairs })
 
 /-- the layer loop shared by `random_individual` (prev = none) and `add_random_layers` (prev = last layer):
 each new layer is generated against the layer directly before it -/
